@@ -9,7 +9,9 @@
      clean_val   no NaN, no closure, no caught-error text inside
      small_ints  every int inside is exactly a float, |z| < 2^53 (the property's bound).
    The operator matrices op_matrices are regenerated from value.New() on every run. *)
-From P2 Require Import Base.Prelude Sem.Num Sem.Syntax Sem.Ops Sem.Lib Sem.OpsSpec Sem.OpsLaws Generated.ValueOps.
+From P2 Require Import Base.Prelude Sem.Num Sem.Syntax Sem.Ops Sem.Lib Sem.OpsSpec Sem.OpsLaws Sem.OrderSwitch
+  Sem.OrderSwitchLaws Sem.Ref Generated.ValueOps.
+From Coq Require Import Permutation Sorted.
 Local Open Scope Z_scope.
 
 (* ---------------------------------------------------------------- = : what it computes *)
@@ -198,6 +200,81 @@ Proof. exact pick_max_err. Qed.
 Theorem C14_switch_uses_eq : forall a b, equal_fg a b = veq a b.
 Proof. exact equal_fg_is_veq. Qed.
 
+(* ---------------------------------------------------------------- switch agrees with = *)
+
+(* switch x case c1: .. case ck: .. default ..  (switch_model: the case loop of GenerateFunc, cases numbered
+   from n, 0 = default): case number n+i is taken exactly when x = c_i is true and every earlier constant is
+   comparable and different; *)
+Theorem C14_switch_agrees : forall x cs n k, (k <> 0)%N -> (0 < n)%N ->
+  (switch_model x cs n = Ok k <->
+   exists l1 c l2, cs = l1 ++ c :: l2 /\ k = (n + N.of_nat (length l1))%N /\
+                   veq x c = Ok true /\ Forall (fun z => veq x z = Ok false) l1).
+Proof. exact switch_model_case. Qed.
+
+(* the default exactly when every constant is comparable and different; *)
+Theorem C14_switch_default : forall x cs n, (0 < n)%N ->
+  (switch_model x cs n = Ok 0%N <-> Forall (fun z => veq x z = Ok false) cs).
+Proof. exact switch_model_default. Qed.
+
+(* an error exactly when a constant that cannot be compared comes before any equal one *)
+Theorem C14_switch_error : forall x cs n,
+  (is_err (switch_model x cs n) = true <->
+   exists l1 c l2, cs = l1 ++ c :: l2 /\ is_err (veq x c) = true /\ Forall (fun z => veq x z = Ok false) l1).
+Proof. exact switch_model_err. Qed.
+
+(* on every pair: switch a case b takes the case iff a = b, fails iff a = b fails - and so does switch b case a *)
+Theorem C14_switch_pair : forall x c,
+  switch_model x [c] 1 = match veq x c with
+                         | Ok true => Ok 1%N | Ok false => Ok 0%N
+                         | Err t => Err t | Panic => Panic | OOF => OOF | Unsup => Unsup
+                         end.
+Proof. exact switch_one_case. Qed.
+
+Theorem C14_switch_sym : forall a b, wf_keys a = true -> wf_keys b = true ->
+  switch_model a [b] 1 = switch_model b [a] 1.
+Proof. exact switch_sym. Qed.
+
+(* the loop is what the reference semantics (Sem/Ref.v eval) does for a switch over constants *)
+Theorem C14_switch_is_ref_semantics : forall known f env x crs d,
+  eval known (S (S f)) env (ASwitch (AConst x) (map (fun cr => (AConst (fst cr), AConst (snd cr))) crs) (AConst d))
+  = switch_pick x crs d.
+Proof. exact ref_switch_consts. Qed.
+
+Theorem C14_switch_pick_is_model : forall x crs d n, (0 < n)%N ->
+  switch_pick x crs d =
+  match switch_model x (map fst crs) n with
+  | Ok k => if (k =? 0)%N then Ok d else Ok (nth (N.to_nat (k - n)) (map snd crs) d)
+  | Err t => Err t | Panic => Panic | OOF => OOF | Unsup => Unsup
+  end.
+Proof. exact switch_pick_model. Qed.
+
+(* ---------------------------------------------------------------- order agrees with < *)
+
+(* order_model: List.Order + sort.Sort as the insertion sort (what Go runs for <= 12 elements), for ANY length.
+   All elements numbers (ints below 2^53, no NaN) or all strings: no error, a permutation, no later element
+   smaller than an earlier one, and elements none of which is smaller keep their order (stable) *)
+Theorem C14_order_model_sorted : forall l, sortable l = true ->
+  exists out, order_model l = Ok (VList out) /\ Permutation l out /\
+    StronglySorted (fun a b => ltb_spec b a = false) out /\
+    (forall z, In z l -> filter (equiv_spec z) out = filter (equiv_spec z) l).
+Proof. exact order_model_sorted. Qed.
+
+(* ... where ltb_spec is what the operator < answers on these elements *)
+Theorem C14_order_agrees_with_less : forall l a b, sortable l = true -> In a l -> In b l ->
+  vless a b = Ok (ltb_spec a b).
+Proof. exact sortable_vless. Qed.
+
+(* order fails exactly when one of the comparisons the sort makes (order_cmps) is between incomparable elements *)
+Theorem C14_order_error_iff_incomparable : forall l, order_model l <> Unsup ->
+  is_err (order_model l) = existsb bad_cmp (order_cmps l).
+Proof. exact order_error_iff. Qed.
+
+(* the specification checker of the correspondence run accepts the model's answer for EVERY list (ints below
+   2^53, no caught error text, maps with distinct keys): sorted permutation if all elements are mutually
+   comparable, an error otherwise (two or more elements) *)
+Theorem C14_order_checker_accepts : forall l, Forall elem_ok l -> order_allowed l (order_model l) = true.
+Proof. exact order_checker_accepts. Qed.
+
 (* ---------------------------------------------------------------- non-vacuity *)
 
 (* a nested value with maps in different key order, ints and floats mixed, satisfying all side conditions *)
@@ -219,6 +296,18 @@ Example C14_nonvacuous_order :
   calc op_in (VInt 1) (VList [VStr [97%N]; VInt 1]) = Err None /\
   calc op_in (VInt 1) (VList [VInt 1; VStr [97%N]]) = Ok (VBool true) /\
   veq sym_witness_a sym_witness_b = Err None /\ veq sym_witness_b sym_witness_a = Err None.
+Proof. vm_compute. repeat split; reflexivity. Qed.
+
+Example C14_nonvacuous_order_switch :
+  sortable [VInt 3; VFloat (FFin 1 0); VInt 1; VFloat (FFin 3 (-1)); VInt 3] = true /\
+  order_model [VInt 3; VFloat (FFin 1 0); VInt 1; VFloat (FFin 3 (-1)); VInt 3]
+    = Ok (VList [VFloat (FFin 1 0); VInt 1; VFloat (FFin 3 (-1)); VInt 3; VInt 3]) /\
+  order_model [VInt 3; VStr [97%N]; VInt 1] = Err None /\
+  existsb bad_cmp (order_cmps [VInt 3; VStr [97%N]; VInt 1]) = true /\
+  order_model [VBool true] = Ok (VList [VBool true]) /\
+  switch_model (VInt 1) [VInt 2; VFloat (FFin 1 0); VInt 1] 1 = Ok 2%N /\
+  switch_model (VInt 1) [VInt 2; VStr []; VInt 1] 1 = Err None /\
+  switch_model (VInt 1) [VInt 2; VInt 3] 1 = Ok 0%N.
 Proof. vm_compute. repeat split; reflexivity. Qed.
 
 Print Assumptions C14_eq_lists_elementwise.
@@ -258,3 +347,14 @@ Print Assumptions C14_max_greatest.
 Print Assumptions C14_min_incomparable.
 Print Assumptions C14_max_incomparable.
 Print Assumptions C14_switch_uses_eq.
+Print Assumptions C14_switch_agrees.
+Print Assumptions C14_switch_default.
+Print Assumptions C14_switch_error.
+Print Assumptions C14_switch_pair.
+Print Assumptions C14_switch_sym.
+Print Assumptions C14_switch_is_ref_semantics.
+Print Assumptions C14_switch_pick_is_model.
+Print Assumptions C14_order_model_sorted.
+Print Assumptions C14_order_agrees_with_less.
+Print Assumptions C14_order_error_iff_incomparable.
+Print Assumptions C14_order_checker_accepts.
